@@ -202,6 +202,25 @@ func TestVerifDriverC10(t *testing.T) {
 		}
 		root.Close()
 	}
+	// a root with BOTH a plain and a cached reporter: the cached timer takes precedence,
+	// the plain reporter sees nothing, each record is delivered exactly once
+	{
+		plain, cached := &vdC10Rep{}, &vdC10Rep{}
+		root := newRootScope(ScopeOptions{Reporter: plain, CachedReporter: vdC10Cached{cached}, OmitCardinalityMetrics: true}, 0)
+		tm := root.Tagged(map[string]string{"k": "v"}).Timer("both")
+		for i := 1; i <= 5; i++ {
+			tm.Record(time.Duration(i) * time.Millisecond)
+		}
+		if len(cached.evs) != 5 || len(plain.evs) != 0 {
+			fail("plain and cached reporter: 5 records, %d deliveries on the cached timer, %d through the plain reporter", len(cached.evs), len(plain.evs))
+		}
+		for i, e := range cached.evs {
+			if e.d != time.Duration(i+1)*time.Millisecond {
+				fail("plain and cached reporter: record %d delivered as %v", i+1, e.d)
+			}
+		}
+		root.Close()
+	}
 	if fails > 0 {
 		t.Fatalf("%d failures", fails)
 	}
